@@ -15,16 +15,16 @@ CHECKS['C11'] = dict(
          '(normal return although the encoder\'s layout arithmetic proves the file cannot contain what its header declares). non-trivial = every case except the unmodified seed.',
     assumptions=ASSUME_COMMON + ['operator new above 256 MB throws std::bad_alloc (an absurd declared size must be an exception, not an OOM kill)',
                                  'PNG/JPEG/TIFF: libpng/libjpeg/libtiff are uninstrumented shared libraries — inside them only what ASan\'s interceptors see is visible; the GIL-side glue is fully instrumented. Their seeds are written by GIL\'s own writers at run time (11 files), deviations = every truncation + every byte x {bit 0 flipped, bit 7 flipped, 0x00, 0xFF}; no silent-accept oracle there (no field table)',
-                                 'termination is decided up to a 30 s watchdog per unit; scanline iteration is cut after 70 000 rows'],
+                                 'termination is decided by a wall-clock watchdog per case: 4 s for an input of at most a few hundred bytes; a case that exceeds it is run again, first in a fresh worker, with a 60 s limit and is reported as a hang only if that expires too (counters watchdog_expiries_rechecked / watchdog_expiry_not_confirmed_with_15x_limit; after three confirmed hangs in one unit further expiries are reported without the second run); scanline iteration is cut after 70 000 rows'],
     tus=[dict(name='c11_' + f, src='harness/c11_%s.cpp' % f, deps=_C11_DEPS) for f in ('bmp', 'pnm', 'targa')] +
         [dict(name='c11_libfmt', src='harness/c11_libfmt.cpp', deps=_C11_DEPS, libs=['-lpng', '-lz', '-ljpeg', '-ltiffxx', '-ltiff'])],
     runs=dict(quick=_c11_runs(dict(small_only=1, devmask=6), 8) +
-                    [dict(tu='c11_libfmt', group='png', bounds=dict(devmask=6), shards=5), dict(tu='c11_libfmt', group='jpeg', bounds=dict(devmask=6), shards=2),
+                    [dict(tu='c11_libfmt', group='png', bounds=dict(devmask=6), shards=5), dict(tu='c11_libfmt', group='jpeg', bounds=dict(devmask=6), shards=3),
                      dict(tu='c11_libfmt', group='tiff', bounds=dict(devmask=6), shards=4)],
               thorough=_c11_runs(dict(small_only=0, devmask=7, all256=0), 16) +                 # every seed, three devices
                        _c11_runs(dict(small_only=1, devmask=2, all256=1), 16) +                 # smallest seeds: all 256 values of every data byte
                        _c11_runs(dict(small_only=1, devmask=2, pairstride=1), 16, groups=('pairs',)) +
-                       [dict(tu='c11_libfmt', group='png', bounds=dict(devmask=7, name_all=1), shards=5), dict(tu='c11_libfmt', group='jpeg', bounds=dict(devmask=7, name_all=1), shards=2),
+                       [dict(tu='c11_libfmt', group='png', bounds=dict(devmask=7, name_all=1), shards=5), dict(tu='c11_libfmt', group='jpeg', bounds=dict(devmask=7, name_all=1), shards=3),
                         dict(tu='c11_libfmt', group='tiff', bounds=dict(devmask=7, name_all=1), shards=4)]),
     witnesses_required=dict(all=['truncations', 'field_deviations', 'byte_deviations', 'rejected_with_exception', 'returned_normally']),
     deadline=dict(quick=1200, thorough=7200),
